@@ -5,6 +5,7 @@ import SimilarVerif.Lemmas.Patience
 import SimilarVerif.Lemmas.MyersTotal
 import SimilarVerif.Lemmas.PatienceTotal
 import SimilarVerif.Lemmas.Walk
+import SimilarVerif.Lemmas.Shift
 /-!
 # C01 — every algorithm emits a sound, gap-free, index-exact edit script
 
@@ -22,6 +23,9 @@ Status
   below are stated relative to.
 * Patience: **full** — total and valid for every clock (`patience_total_valid`, last theorem of this
   file; Lemmas/PatienceTotal.lean on top of the hook-generic Myers totality).
+* Shift invariance ("diffing a sub-range equals diffing the extracted slices shifted by the range
+  starts"): **full**, every algorithm, every clock, including aborts, comparison and probe counts
+  (`subrange_is_shifted_slice`, Lemmas/Shift.lean).
 -/
 namespace SimilarVerif.C01
 open SimilarVerif Spec
@@ -141,5 +145,18 @@ theorem patience_total_valid (E : Env) (os oe ns ne : Nat) (w : World) (ho : os 
     ∃ r w', rawTrace .patience E os oe ns ne w = .ok (r, w') ∧ ValidRaw E os oe ns ne r.trace := by
   obtain ⟨r, w', h, hv⟩ := PatienceT.patience_total E os oe ns ne w ho hn hb hbo hbn
   exact ⟨r, w', by simpa [rawTrace, diffWith] using h, hv⟩
+
+/-- **Diffing a sub-range equals diffing the extracted slices shifted by the range starts** — every
+algorithm, every clock: the run on ranges `os..oe`, `ns..ne` of `E` is the run on `0..oe-os`, `0..ne-ns` of the
+shifted element tests (`E.shift os ns` is what the extracted slices answer), with every reported index — carried
+ones included — moved by `os` on the old and `ns` on the new side; the same world comes out (comparisons, probes,
+clock), and an abort on one side is the same abort on the other. -/
+theorem subrange_is_shifted_slice : type_of% @ShiftP.rawTrace_shift := @ShiftP.rawTrace_shift
+
+/-- the additive form, for any initial state of the recording hook (a failing hook included) -/
+theorem subrange_is_shifted_slice_add : type_of% @ShiftP.rawTrace_shift_add := @ShiftP.rawTrace_shift_add
+
+/-- … and for ARBITRARY hooks that are related by the shift (`HSim`), any state types -/
+theorem subrange_is_shifted_slice_hooks : type_of% @ShiftP.diffWith_sim := @ShiftP.diffWith_sim
 
 end SimilarVerif.C01
